@@ -3,7 +3,8 @@ package manifam
 // C13 — manifest writers change exactly the requested requirements.
 //
 // Two legs share one case type (so that every known-finding witness decodes in both):
-// TestC13_npm (package.json) and TestC13_pom (pom.xml with an optional local parent).
+// TestC13_npm (package.json) and TestC13_pom (pom.xml with an optional chain of local
+// parent POMs).
 
 import (
 	"fmt"
@@ -117,9 +118,17 @@ type pomGen struct {
 	t      *rapid.T
 	col    *ev.Collector
 	n      int
-	files  [2]*pomFile
+	files  []*pomFile // the manifest, then its local ancestors (nearest first)
 	props  []pomPropRec
 	hasPar bool
+}
+
+// ancestor draws one of the local ancestors (1 = the parent); the minimal value is the parent.
+func (g *pomGen) ancestor(label string) int {
+	if len(g.files) <= 2 {
+		return 1
+	}
+	return rapid.IntRange(1, len(g.files)-1).Draw(g.t, label)
 }
 
 func (g *pomGen) coord() (string, string) {
@@ -156,7 +165,8 @@ func (g *pomGen) propFor(file int, profile string, val string) string {
 	if choice >= 8 {
 		var inScope []string
 		for _, p := range g.props {
-			if (p.profile == "" && (file == 0 || p.file == 1)) || (p.profile != "" && p.profile == profile && p.file == file) {
+			// project-level properties of the file itself and of the poms above it
+			if (p.profile == "" && p.file >= file) || (p.profile != "" && p.profile == profile && p.file == file) {
 				inScope = append(inScope, p.name)
 			}
 		}
@@ -166,11 +176,19 @@ func (g *pomGen) propFor(file int, profile string, val string) string {
 	}
 	if g.hasPar && choice == 7 {
 		if file == 0 {
-			return g.addProp(1, "", val) // declared in the parent, used by the child
+			return g.addProp(g.ancestor("prop_in_ancestor"), "", val) // declared in an ancestor, used by the child
 		}
-		// declared in the parent (where the dependency is), overridden by the child
-		name := g.addProp(1, "", val)
-		g.files[0].Props = append(g.files[0].Props, pomProp{Name: name, Val: rapid.SampledFrom(pomVersions).Draw(g.t, "override_val")})
+		if file < len(g.files)-1 && rapid.Bool().Draw(g.t, "prop_from_above") {
+			// declared further up the chain, used by this ancestor
+			return g.addProp(rapid.IntRange(file+1, len(g.files)-1).Draw(g.t, "prop_above"), "", val)
+		}
+		// declared in the ancestor (where the dependency is), overridden by a pom below it
+		name := g.addProp(file, "", val)
+		below := 0
+		if file > 1 {
+			below = rapid.IntRange(0, file-1).Draw(g.t, "override_in")
+		}
+		g.files[below].Props = append(g.files[below].Props, pomProp{Name: name, Val: rapid.SampledFrom(pomVersions).Draw(g.t, "override_val")})
 		return name
 	}
 	if profile != "" && choice >= 3 {
@@ -437,30 +455,116 @@ func (g *pomGen) plugins(file int, max int) []pomPlugin {
 	return out
 }
 
+// genChain draws the local ancestors of the manifest: one to three poms, each found from
+// the pom below it through <relativePath> (a file, a directory, or the default
+// ../pom.xml). Every pom but the topmost one may leave out <groupId> and/or <version>,
+// which it then inherits from its own <parent>.
+func (g *pomGen) genChain(c *pomCase) {
+	t := g.t
+	depth := rapid.IntRange(1, 3).Draw(t, "chain_depth")
+	names := []string{"parent", "grand", "root"}
+	// coordinates, from the top down
+	files := make([]*pomFile, depth+1)
+	effG, effV := make([]string, depth+1), make([]string, depth+1)
+	for k := depth; k >= 1; k-- {
+		f := &pomFile{A: names[k-1] + "-pom", Packaging: "pom"}
+		if k == 1 {
+			f.A = "parent-pom"
+		}
+		ownG := "org.parent"
+		if k > 1 {
+			ownG = rapid.SampledFrom([]string{"org.parent", "org." + names[k-1]}).Draw(t, "ancestor_g")
+		}
+		ownV := rapid.SampledFrom([]string{"1.1.1", "7", "2.0-SNAPSHOT"}).Draw(t, "parent_v")
+		if k == depth || !rapid.Bool().Draw(t, "ancestor_inherits_group") {
+			f.G = ownG
+			effG[k] = ownG
+		} else {
+			effG[k] = effG[k+1]
+		}
+		if k == depth || !rapid.Bool().Draw(t, "ancestor_inherits_version") {
+			f.V = ownV
+			effV[k] = ownV
+		} else {
+			effV[k] = effV[k+1]
+		}
+		files[k] = f
+	}
+	// locations, from the manifest up
+	childPath := pomDefaultChildPath
+	if depth > 1 {
+		childPath = "w/x/app/pom.xml"
+		c.ChildPath = childPath
+	}
+	used := map[string]bool{childPath: true}
+	cur := childPath
+	paths := make([]string, depth+1)
+	files[0] = &c.Child
+	for k := 1; k <= depth; k++ {
+		name := names[k-1]
+		dir := pathDir(cur)
+		var rel string
+		switch rapid.IntRange(0, 8).Draw(t, "parent_place") {
+		case 0:
+			rel = ""
+		case 1:
+			rel = "../pom.xml"
+		case 2:
+			rel = "../" + name + "/pom.xml"
+		case 3:
+			rel = "../" + name
+		case 4:
+			rel = name + "-pom.xml"
+		case 5:
+			rel = ".."
+		case 6:
+			rel = name + "/pom.xml"
+		case 7:
+			rel = name
+		default:
+			rel = "./../" + name + "/../" + name + "/pom.xml" // not in its shortest form
+		}
+		asFile, asDir := resolveParentPath(cur, rel)
+		p := asFile
+		if !strings.HasSuffix(asFile, ".xml") {
+			p = asDir
+		}
+		// no way further up from the top directory, and never back to a pom of the chain
+		if dir == "." && strings.HasPrefix(rel, "..") || rel == "" && dir == "." || strings.HasPrefix(p, "../") || used[p] {
+			rel = name + "-pom.xml"
+			p, _ = resolveParentPath(cur, rel)
+		}
+		used[p] = true
+		paths[k] = p
+		files[k-1].Parent = &pomParentRef{G: effG[k], A: files[k].A, V: effV[k], RelPath: rel}
+		cur = p
+	}
+	c.Parent, c.ParentPath = files[1], paths[1]
+	g.files = append(g.files, files[1])
+	for k := 2; k <= depth; k++ {
+		c.Ancestors = append(c.Ancestors, pomAncestor{File: *files[k], Path: paths[k]})
+	}
+	// the generator fills the ancestors in place
+	for i := range c.Ancestors {
+		g.files = append(g.files, &c.Ancestors[i].File)
+	}
+}
+
+func pathDir(p string) string {
+	if i := strings.LastIndex(p, "/"); i >= 0 {
+		return p[:i]
+	}
+	return "."
+}
+
 func genPomCase(t *rapid.T, col *ev.Collector) *pomCase {
 	g := &pomGen{t: t, col: col}
 	c := &pomCase{}
 	child := &c.Child
-	g.files[0] = child
+	g.files = []*pomFile{child}
 	g.hasPar = chance(t, "has_parent", 4, 10)
 	if g.hasPar {
-		par := &pomFile{G: "org.parent", A: "parent-pom", V: rapid.SampledFrom([]string{"1.1.1", "7", "2.0-SNAPSHOT"}).Draw(t, "parent_v"), Packaging: "pom"}
-		c.Parent = par
-		g.files[1] = par
-		ref := &pomParentRef{G: par.G, A: par.A, V: par.V}
-		switch rapid.IntRange(0, 4).Draw(t, "parent_place") {
-		case 1:
-			c.ParentPath, ref.RelPath = "parent/pom.xml", "../parent/pom.xml"
-		case 2:
-			c.ParentPath, ref.RelPath = "parent/pom.xml", "../parent"
-		case 0:
-			c.ParentPath, ref.RelPath = "pom.xml", ""
-		case 3:
-			c.ParentPath, ref.RelPath = "pom.xml", "../pom.xml"
-		default:
-			c.ParentPath, ref.RelPath = "app/parent-pom.xml", "parent-pom.xml"
-		}
-		child.Parent = ref
+		g.genChain(c)
 	}
 	child.A = "my-app"
 	if !g.hasPar || !rapid.Bool().Draw(t, "inherit_group") {
@@ -497,18 +601,22 @@ func genPomCase(t *rapid.T, col *ev.Collector) *pomCase {
 		}
 	}
 	child.Plugins = g.plugins(0, 2)
-	if g.hasPar {
-		par := g.files[1]
-		par.Deps = g.deps(1, "", 2)
-		par.Mgmt = g.deps(1, "", 3)
-		par.Plugins = g.plugins(1, 1)
+	for k := 1; k < len(g.files); k++ {
+		par := g.files[k]
+		par.Deps = g.deps(k, "", 2)
+		if k == 1 {
+			par.Mgmt = g.deps(k, "", 3)
+		} else {
+			par.Mgmt = g.deps(k, "", 2)
+		}
+		par.Plugins = g.plugins(k, 1)
 		if rapid.Bool().Draw(t, "parent_plain_props") {
 			par.Props = append(par.Props, pomProp{Name: "encoding", Val: "UTF-8"})
 		}
 	}
 
 	// version-less declarations managed elsewhere: move the version of some child
-	// dependencies into a dependencyManagement entry (of the child or of the parent)
+	// dependencies into a dependencyManagement entry (of the child or of one of its ancestors)
 	for i := range child.Deps {
 		d := &child.Deps[i]
 		if !chance(t, "managed", 1, 5) {
@@ -517,13 +625,14 @@ func genPomCase(t *rapid.T, col *ev.Collector) *pomCase {
 		m := pomDep{G: d.G, A: d.A, Ver: d.Ver, Type: d.Type, Classifier: d.Classifier, VerCDATA: d.VerCDATA}
 		d.Ver, d.VerCDATA = "", false
 		if g.hasPar && rapid.Bool().Draw(t, "managed_in_parent") {
-			// a property used by the entry must be visible from the parent file as well: keep
-			// literal versions there unless the property already lives in the parent
+			lv := g.ancestor("managed_in_ancestor")
+			// a property used by the entry must be visible from that ancestor as well: keep
+			// literal versions there unless the property already lives in the same file
 			if strings.Contains(m.Ver, "${") {
 				ok := true
 				for _, ph := range placeholders(m.Ver) {
 					for _, p := range g.props {
-						if p.name == ph && (p.file != 1 || p.profile != "") {
+						if p.name == ph && (p.file != lv || p.profile != "") {
 							ok = false
 						}
 					}
@@ -533,7 +642,7 @@ func genPomCase(t *rapid.T, col *ev.Collector) *pomCase {
 					continue
 				}
 			}
-			g.files[1].Mgmt = append(g.files[1].Mgmt, m)
+			g.files[lv].Mgmt = append(g.files[lv].Mgmt, m)
 		} else {
 			child.Mgmt = append(child.Mgmt, m)
 		}
@@ -564,7 +673,8 @@ func genPomCase(t *rapid.T, col *ev.Collector) *pomCase {
 			place := rapid.IntRange(0, 3).Draw(t, "dup_place")
 			switch {
 			case place == 1 && g.hasPar:
-				g.files[1].Mgmt = append(g.files[1].Mgmt, dup)
+				lv := g.ancestor("dup_in_ancestor")
+				g.files[lv].Mgmt = append(g.files[lv].Mgmt, dup)
 			case place == 2 && len(inactive) > 0:
 				i := inactive[len(inactive)-1]
 				has := false
@@ -594,7 +704,7 @@ func genPomCase(t *rapid.T, col *ev.Collector) *pomCase {
 
 	// a property name defined in several scopes at once: in the (default-active) profile of
 	// the dependency that uses it, and also in another profile (before or after it), at
-	// project level, in the local parent, or in a profile of the local parent. The
+	// project level, in a local ancestor, or in a profile of a local ancestor. The
 	// definition in force for the dependency is the one of its own profile.
 	forced := map[string]bool{}
 	if chance(t, "multi_scope_property", 1, 4) {
@@ -632,24 +742,25 @@ func genPomCase(t *rapid.T, col *ev.Collector) *pomCase {
 			child.Props = append(child.Props, pomProp{Name: name, Val: "9.9"})
 		}
 		if g.hasPar && mask&8 != 0 {
-			g.files[1].Props = append(g.files[1].Props, pomProp{Name: name, Val: "6.6"})
+			lv := g.ancestor("ms_ancestor")
+			g.files[lv].Props = append(g.files[lv].Props, pomProp{Name: name, Val: "6.6"})
 		}
 		if g.hasPar && mask&16 != 0 {
-			g.files[1].Profiles = append(g.files[1].Profiles, other(fmt.Sprintf("scoped-%d-parent", g.n)))
+			lv := g.ancestor("ms_ancestor_profile")
+			g.files[lv].Profiles = append(g.files[lv].Profiles, other(fmt.Sprintf("scoped-%d-parent", g.n)))
 		}
 	}
 
-	g.layout(child)
-	if g.hasPar {
-		g.layout(g.files[1])
+	for _, f := range g.files {
+		g.layout(f)
 	}
 
 	// updates
-	var parentBytes []byte
-	if c.Parent != nil {
-		parentBytes = renderPom(c.Parent)
+	var docs [][]byte
+	for _, f := range c.chain() {
+		docs = append(docs, renderPom(f.file))
 	}
-	an, err := analysePom(renderPom(child), parentBytes)
+	an, err := analysePom(docs)
 	if err != nil {
 		t.Fatalf("generator produced an untokenisable pom: %v", err)
 	}
@@ -659,7 +770,7 @@ func genPomCase(t *rapid.T, col *ev.Collector) *pomCase {
 			continue
 		}
 		seen[s.name()] = true
-		if !s.visible && (strings.Contains(s.verLit, "${") || s.file == 1) {
+		if !s.visible && (strings.Contains(s.verLit, "${") || s.file >= 1) {
 			continue // the suggester never proposes these
 		}
 		if forced[s.name()] {
